@@ -164,13 +164,6 @@ Proof.
 Qed.
 
 (* ---------------------------------------------------------------- evaluate / evaluate_at *)
-Lemma skipn_nth_error {A} (l : list A) : forall k,
-  skipn k l = match nth_error l k with Some v => v :: skipn (S k) l | None => [] end.
-Proof.
-  induction l as [|x xs IH]; intros [|k]; simpl; try reflexivity.
-  rewrite IH. destruct (nth_error xs k); reflexivity.
-Qed.
-
 Lemma zip_inputs_loop (vals : list st) : forall ins k acc,
   foldM (fun v_dict_inputs (p : nat * label) =>
            do t1 <- nth_res vals (fst p);
